@@ -886,6 +886,8 @@ pub fn run_universe(spec: &Spec, uni: &Universe, coll: &Mutex<Collector>, limits
         let mut ex_local = Exercised::default();
         let mut reports: Vec<Report> = Vec::new();
         let mut samples: Vec<serde_json::Value> = Vec::new();
+        #[allow(unused_assignments)]
+        let mut continue_sampling = true;
         for r in results {
             let so = match r? {
                 Some(x) => x,
@@ -912,15 +914,32 @@ pub fn run_universe(spec: &Spec, uni: &Universe, coll: &Mutex<Collector>, limits
                     });
                 }
             }
-            if samples.len() < 2 && step + 1 == spec.depth && so.result.terminals.len() > 1 {
-                let (t, e) = so.result.terminals.iter().last().unwrap();
+            if step + 1 == spec.depth && so.result.terminals.len() > 1 {
+                // samples: the largest cases seen (jobs, then events), so that a reader sees a non-trivial one
+                let (t, e) = so.result.terminals.iter().max_by_key(|(_, e)| e.len()).unwrap();
+                let score = (so.step.graph.n() * 100 + e.len() + 10 * chain.len()) as u64;
+                if samples.len() >= 2 {
+                    let min = samples.iter().map(|x: &serde_json::Value| x["size_score"].as_u64().unwrap_or(0)).min().unwrap_or(0);
+                    if score <= min {
+                        continue_sampling = false;
+                    } else {
+                        let pos = samples.iter().position(|x| x["size_score"].as_u64().unwrap_or(0) == min).unwrap();
+                        samples.remove(pos);
+                        continue_sampling = true;
+                    }
+                } else {
+                    continue_sampling = true;
+                }
+                if continue_sampling {
                 samples.push(serde_json::json!({
+                    "size_score": score,
                     "family": spec.name, "universe": uni.label,
                     "chain": chain.iter().map(step_summary).collect::<Vec<_>>(),
                     "graph": so.step.graph.describe(), "versions": so.step.versions, "deleted": so.step.deleted,
                     "events": e.iter().map(ev_str).collect::<Vec<_>>(),
                     "dispositions": format!("{:?}", t.disp),
                 }));
+                }
             }
             if step + 1 < spec.depth {
                 for (t, evs) in so.result.terminals.iter() {
@@ -961,9 +980,9 @@ pub fn run_universe(spec: &Spec, uni: &Universe, coll: &Mutex<Collector>, limits
             for r in reports {
                 c.add_report(r);
             }
-            if c.samples.len() < 3 {
-                c.samples.extend(samples);
-            }
+            c.samples.extend(samples);
+            c.samples.sort_by_key(|x| std::cmp::Reverse(x["size_score"].as_u64().unwrap_or(0)));
+            c.samples.truncate(3);
             if complete {
                 local.max_chain_depth = (step + 1) as u64;
             }
